@@ -409,8 +409,13 @@ def discharge(prog, iv, site):
                 g = prog.fns[hi[1]]
                 rt = Resolver(g).local(0)
                 alts = rt[1] if rt[0] == "phi" else (rt,)
-                if all(tree_str(strip_deep(x)) in ("Vec::len(arg1.buffer)", "(Vec::len(arg1.buffer) Sub 1_usize)") for x in alts) and base_s.endswith(".buffer"):
-                    return "drain(..n) with n = len or len - 1 of the same buffer"
+                def _at_most_len(x):
+                    x = strip_deep(x)
+                    if tree_str(x) == "Vec::len(arg1.buffer)":
+                        return True
+                    return x[0] == "binop" and x[1] == "Sub" and tree_str(x[2]) == "Vec::len(arg1.buffer)"
+                if all(_at_most_len(x) for x in alts) and base_s.endswith(".buffer"):
+                    return "drain(..n) with n = len - k of the same buffer (a checked subtraction never exceeds len)"
         return None
     if kind == "bounds" and len(t["args"]) == 2:
         # buf[n..] / buf[..n] / buf.split_at(n) with n = the count returned by Read::read / Write::write on that same buf
@@ -736,6 +741,9 @@ def load_residue():
             env["classes"].add(_class_group(cls))
             env["leaves"] |= leaves
             env["roots"] |= set(e.get("roots", ["reader", "writer"]))
+    for fn, flds in d.get("function_fields", {}).items():
+        if "env:%s" % fn in out:
+            out["env:%s" % fn]["leaves"] |= set(flds)
     return out
 
 
